@@ -1,12 +1,23 @@
 import OjgVerif.Match.LemmasSel
 import OjgVerif.Match.LemmasSpec
+import OjgVerif.Match.LemmasStream
+import OjgVerif.Gen.MatchFacts
 /-! # C17 — streaming Match equals parse-then-locate
 
 `matchRun dv targets (events doc)` are the callbacks of the `MatchHandler` model (Match/Model.lean)
 on the token events of a document, `expected targets doc` the outermost locations the targets
 select, in document order, with their values (Match/Spec.lean). Chunking does not appear: the
-handler sees token events only, and that a tokenizer delivers the same events for every chunking
-is property C03.
+handler sits behind oj.Tokenizer / sen.Tokenizer and sees token events only; that the token-event
+sequence does not depend on the chunking of the reader is property C03 (`chunks_irrelevant` for the
+JSON machine, partial for SEN), and the handler is a function of the event sequence (the event
+list is an explicit argument of `matchRun`), which gives chunk independence of the callbacks as a
+corollary (`callbacks_chunk_independent`).
+
+SCOPE: `C17_partial` holds for target SETS in which NO target uses a slice (other than `[:]`), a
+filter or a from-the-end index/union member anywhere. `C17_streamed` weakens that for slices and
+from-the-end indexes: in a set without filters such a target does not disturb the others (it is
+read as `asStreamed`: from-the-end selects nothing, a slice is `[:]`); only a FILTER target masks
+other targets (`dev_filter_masks_other_target`).
 
 The full statement is false for the code as it is (`C17_full_false` and one witness per recorded
 deviation); `C17_partial` proves it for every document and every target set that avoids exactly
@@ -33,19 +44,18 @@ def fragFromEnd : Frag → Bool
   | .union ms => ms.any memFromEnd
   | _ => false
 
-def isSlice : Frag → Bool
-  | .slice _ _ _ => true
+/-- a slice other than `[:]` (start 0, no end, step 1): the matcher ignores bounds and step -/
+def isPartialSlice : Frag → Bool
+  | .slice a b st => !(decide (a = 0) && b.isNone && decide (st = 1))
   | _ => false
 
 def usesFromEnd (t : Target) : Bool := t.any fragFromEnd
-def usesSlice (t : Target) : Bool := t.any isSlice
-def usesFilter (t : Target) : Bool := t.any isFilter'
-  where isFilter' : Frag → Bool
-    | .filter _ => true
-    | _ => false
+def usesSlice (t : Target) : Bool := t.any isPartialSlice
+def usesFilter (t : Target) : Bool := t.any isFilterFrag
 
 /-- the target uses one of the constructs with a recorded deviation, ANYWHERE in it
-(known_findings.json: C17-from-end-index, C17-slice-bounds, C17-filter-first-only). A target that
+(known_findings.json: C17-from-end-index, C17-slice-bounds — a slice other than `[:]` —,
+C17-filter-first-only). A target that
 ends in a descent is no longer among them (repaired in /repo, ba8abfd: `Dev.cur.descentNoSelf`
 is off). -/
 def deviates (t : Target) : Bool :=
@@ -68,19 +78,19 @@ theorem all_memOK (ms : List UMem) : ms.all memOK = !ms.any memFromEnd := by
   | cons m r ih => simp [List.all_cons, List.any_cons, ih, memOK_iff, Bool.not_or]
 
 theorem fragOK_cur (f : Frag) :
-    fragOK Dev.cur f = !(fragFromEnd f || isSlice f || usesFilter.isFilter' f) := by
+    fragOK Dev.cur f = !(fragFromEnd f || isPartialSlice f || isFilterFrag f) := by
   cases f with
   | child k => rfl
   | index i =>
-    simp only [fragOK, fragFromEnd, isSlice, usesFilter.isFilter', Bool.or_false]
+    simp only [fragOK, fragFromEnd, isPartialSlice, isFilterFrag, Bool.or_false]
     by_cases h : 0 ≤ i
     · have : ¬ i < 0 := by omega
       simp [h, this]
     · have : i < 0 := by omega
       simp [h, this]
   | wildcard => rfl
-  | union ms => simp [fragOK, fragFromEnd, isSlice, usesFilter.isFilter', all_memOK]
-  | slice a b st => simp [fragOK, Dev.cur, fragFromEnd, isSlice, usesFilter.isFilter']
+  | union ms => simp [fragOK, fragFromEnd, isPartialSlice, isFilterFrag, all_memOK]
+  | slice a b st => simp [fragOK, Dev.cur, fragFromEnd, isPartialSlice, isFilterFrag]
   | descent => rfl
   | filter p => rfl
 
@@ -94,8 +104,8 @@ theorem okTarget_cur : ∀ (t : Target), okTarget Dev.cur t = !deviates t
     have hd : Dev.cur.descentNoSelf = false := rfl
     simp only [okTarget, ih, hf, hd, Bool.false_and, Bool.not_false, Bool.and_true]
     simp only [deviates, usesFromEnd, usesSlice, usesFilter, List.any_cons]
-    cases fragFromEnd f <;> cases isSlice f <;> cases usesFilter.isFilter' f <;>
-      cases fs.any fragFromEnd <;> cases fs.any isSlice <;> cases fs.any usesFilter.isFilter' <;> rfl
+    cases fragFromEnd f <;> cases isPartialSlice f <;> cases isFilterFrag f <;>
+      cases fs.any fragFromEnd <;> cases fs.any isPartialSlice <;> cases fs.any isFilterFrag <;> rfl
 
 /-! ## what is proved -/
 
@@ -133,6 +143,72 @@ theorem C17_partial (targets : List Target) (doc : JV) (hdoc : NoDupKeys doc = t
     matchRun Dev.cur targets (events doc) = expected targets doc :=
   C17_general Dev.cur targets doc hdoc (fun t ht => by simp [okTarget_cur, hdev t ht])
 
+/-- on a target without a deviating construct the streamed reading is the target itself -/
+theorem asStreamed_id (t : Target) (h : deviates t = false) : asStreamed t = t :=
+  asStreamed_ok Dev.cur rfl t (by simp [okTarget_cur, h])
+
+/-- C17 for the code as it is now, for every target set WITHOUT FILTERS: the callbacks are the
+specification's for the targets read the way the streaming matcher reads them — a from-the-end
+index or union member selects nothing, a slice selects every index, and every target without such
+a construct keeps its meaning (`asStreamed_id`). So a from-the-end or slice target does not mask
+or disturb the other targets of the set: they are judged as if it stood alone in its streamed
+reading. (A filter target does mask the others: `dev_filter_masks_other_target`.) -/
+theorem C17_streamed (targets : List Target) (doc : JV) (hdoc : NoDupKeys doc = true)
+    (hnf : ∀ t ∈ targets, usesFilter t = false) :
+    matchRun Dev.cur targets (events doc) = expected (targets.map asStreamed) doc := by
+  rw [run_events Dev.cur targets doc hdoc]
+  exact found_streamed Dev.cur rfl rfl targets doc hdoc hnf
+
+/-- in particular: deviating non-filter targets `bad` next to non-deviating `good` ones give the
+outermost locations of `good` together with the streamed readings of `bad` -/
+theorem C17_mixed (good bad : List Target) (doc : JV) (hdoc : NoDupKeys doc = true)
+    (hg : ∀ t ∈ good, deviates t = false) (hb : ∀ t ∈ bad, usesFilter t = false) :
+    matchRun Dev.cur (good ++ bad) (events doc) = expected (good ++ bad.map asStreamed) doc := by
+  rw [C17_streamed (good ++ bad) doc hdoc (by
+    intro t ht
+    rcases List.mem_append.mp ht with h | h
+    · have := hg t h
+      simp only [deviates, Bool.or_eq_false_iff] at this
+      exact this.2
+    · exact hb t h)]
+  have : good.map asStreamed = good := by
+    conv => rhs; rw [← List.map_id good]
+    exact List.map_congr_left (fun t ht => asStreamed_id t (hg t ht))
+  rw [List.map_append, this]
+
+/-- Chunk independence of the callbacks. The handler is a function of the token-event sequence
+(`evs` is an explicit argument of `matchRun`); so for ANY tokenizer `tok` whose event sequence does
+not depend on the chunking `c` of the reader — property C03 for oj.Tokenizer / sen.Tokenizer,
+here a hypothesis — the callbacks do not depend on it either, and equal `expected` as soon as the
+events are those of the document. -/
+theorem callbacks_chunk_independent {C : Type} (tok : C → Bytes → List Event)
+    (hC03 : ∀ (c c' : C) (text : Bytes), tok c text = tok c' text)
+    (dv : Dev) (targets : List Target) (c c' : C) (text : Bytes) :
+    matchRun dv targets (tok c text) = matchRun dv targets (tok c' text) := by
+  rw [hC03 c c' text]
+
+theorem callbacks_any_chunking {C : Type} (tok : C → Bytes → List Event)
+    (hC03 : ∀ (c c' : C) (text : Bytes), tok c text = tok c' text)
+    (targets : List Target) (doc : JV) (hdoc : NoDupKeys doc = true)
+    (hdev : ∀ t ∈ targets, deviates t = false)
+    (c₀ : C) (text : Bytes) (htok : tok c₀ text = events doc) (c : C) :
+    matchRun Dev.cur targets (tok c text) = expected targets doc := by
+  rw [hC03 c c₀ text, htok]
+  exact C17_partial targets doc hdoc hdev
+
+/-- Regression tripwire over the patched lines (NOT a proof that the Go code is the model; that tie
+is the correspondence run): the deviation flags of `Dev.cur` agree with syntactic facts regenerated
+from jp/match.go and jp/matchhandler.go on every run (tools/extract/match.go) — `case Slice` of
+PathMatch calls nothing (every index matches), the descent is tested in front of the
+`len(path) == 0` return with an endless loop (repair ba8abfd), `checkRest` asks `Locate` for one
+location and takes the value from `First`. Changing one of these lines without `Dev.cur` breaks
+this theorem. -/
+theorem dev_cur_matches_source :
+    Dev.cur.sliceAll = Gen.MatchFacts.sliceCaseCalls.isEmpty ∧
+    Dev.cur.descentNoSelf = !Gen.MatchFacts.descentBeforeLenCheck ∧
+    Dev.cur.filterFirstOnly =
+      (decide (Gen.MatchFacts.checkRestLocateMax = 1) && Gen.MatchFacts.checkRestCallsFirst) := by decide
+
 /-- with the remaining proposed fix of `PathMatch` (slice bounds) the theorem also covers slices
 with bounds from the start and a forward step -/
 theorem C17_fixed (targets : List Target) (doc : JV) (hdoc : NoDupKeys doc = true)
@@ -166,6 +242,28 @@ theorem callbacks_once (dv : Dev) (targets : List Target) (doc : JV) (hdoc : NoD
 /-- `$..a[*]['b',0][2]`, `$.a`, and the trailing descents `$..`, `$.a..` -/
 example : ∀ t ∈ [[Frag.descent, .child [97], .wildcard, .union [.name [98], .index 0], .index 2], [.child [97]],
     [.descent], [.child [97], .descent]], deviates t = false := by decide
+
+/-- an INCLUDED target set of `C17_partial`: `$.*`, `$.a[0]`, `$..b`, `$[:]`; an EXCLUDED one: the
+same with `$[-1]` added (one such target puts the whole set outside `C17_partial`) — which
+`C17_streamed` still covers, with `$[-1]` read as "selects nothing"; and a set neither covers:
+`$.*` with the filter target `$[?…]` -/
+example : (∀ t ∈ [[Frag.wildcard], [.child [97], .index 0], [.descent, .child [98]], [.slice 0 none 1]],
+      deviates t = false) ∧
+    (∃ t ∈ [[Frag.wildcard], [.child [97], .index 0], [.descent, .child [98]], [.slice 0 none 1], [.index (-1)]],
+      deviates t = true) ∧
+    (∀ t ∈ [[Frag.wildcard], [.child [97], .index 0], [.descent, .child [98]], [.slice 0 none 1], [.index (-1)]],
+      usesFilter t = false) ∧
+    (∃ t ∈ [[Frag.wildcard], [.filter fun _ => true]], usesFilter t = true) := by decide
+
+example : [[Frag.wildcard], [.index (-1)], [.slice 1 (some 2) 1]].map asStreamed
+    = [[.wildcard], [.union []], [.slice 0 none 1]] := by simp [asStreamed, streamedFrag]
+
+/-- `C17_streamed` at work: `$[-1]` and `$[1:2]` next to `$[0]` on `[5,6,7]`: the slice reports every
+element, `$[-1]` nothing, `$[0]` is undisturbed -/
+example : (matchRun Dev.cur [[.index (-1)], [.index 0]] (events (.arr [.int 5, .int 6, .int 7]))).map (·.1)
+      = [[.idx 0]] ∧
+    (matchRun Dev.cur [[.slice 1 (some 2) 1], [.index 0]] (events (.arr [.int 5, .int 6, .int 7]))).map (·.1)
+      = [[.idx 0], [.idx 1], [.idx 2]] := by decide
 
 /-- `{"a":[{"b":[0,1,2]},3],"c":null}` -/
 example : NoDupKeys (.obj [([97], .arr [.obj [([98], .arr [.int 0, .int 1, .int 2])], .int 3]), ([99], .null)]) = true := by
